@@ -578,7 +578,8 @@ func (x *Exec) lockOp(st *State, c *ssa.CallCommon, acquire, write bool, pos tok
 						}
 					})
 					if err != nil {
-						x.errorf("stable %s: %v", se.String(), err)
+						// a name that is not in scope at this lock site (a local declared later): nothing to keep stable here
+						continue
 					}
 					x.assumptions["memory owned by this call (caller-owned arguments, objects it allocated and has not published) is not mutated by other goroutines: "+se.String()+" in "+x.key] = true
 				}
